@@ -44,6 +44,7 @@ BOUNDS = {
     "quick": {"processes": 2, "preemptions": "1 switch point anywhere (either process first)", "write granularity": "each write = 2 steps (split at half)", "payload": "symbolic ASCII str <= 1 char"},
     "thorough": {"processes": 2, "preemptions": "all scenarios: 2 switch points anywhere", "write granularity": "each write = 2 steps", "payload": "symbolic ASCII str <= 1 char"},
 }
+BUDGET_S = {"thorough": 1200}  # wall budget of the thorough tier: queries not started by then are reported as not run
 LAST_DETAIL = [""]
 INT_DIR = "/s/x/int"
 
